@@ -100,7 +100,7 @@ Definition c01_world : world :=
                 c01_mod 2 [c01_dep 13 (ROk 4 0) RNone false; c01_dep 14 RNone (ROk 6 0) false];
                 c01_mod 3 [c01_dep 15 (ROk 4 0) RNone false];
                 c01_mod 4 []; c01_mod 5 []; c01_mod 6 []; c01_mod 7 []];
-     w_resp_reload := []; w_http := []; w_lock := None; w_class := []; w_file := []; w_max_redirects := 10; w_npm := None |}.
+     w_resp_reload := []; w_http := []; w_lock := None; w_class := []; w_file := []; w_max_redirects := 10; w_wasm_ext := []; w_wasm_nodts := []; w_npm := None |}.
 Definition c01_opts (k : gkind) : bopts :=
   {| bo_kind := k; bo_is_dynamic := false; bo_skip_dynamic := false; bo_unstable_bytes := false;
      bo_unstable_text := false; bo_unstable_css := false |}.
